@@ -1529,7 +1529,17 @@ def _is_not_hermitian(expr: sympy.Expr | sympy.MatrixBase) -> bool:
     Follows sympy's three-valued logic: undecidable cases return False.
     """
     if not expr.atoms(Operator):
-        return expr.is_hermitian is False
+        if not isinstance(expr, sympy.MatrixBase):
+            return expr.is_hermitian is False
+        if expr.rows != expr.cols:
+            return True
+        # Matrix.is_hermitian simplifies every entry, which is slow for large
+        # matrices; expanding the differences is enough to prove them nonzero.
+        return any(
+            (expr[i, j] - expr[j, i].adjoint()).expand().is_zero is False
+            for i in range(expr.rows)
+            for j in range(i, expr.cols)
+        )
     # Sympy cannot decide hermiticity of matrices with operators (sympy issue
     # #27898), compare the number ordered forms of the entries instead.
     pairs = (
@@ -1547,7 +1557,9 @@ def _is_not_hermitian(expr: sympy.Expr | sympy.MatrixBase) -> bool:
         difference = NumberOrderedForm.from_expr(
             entry
         ) - NumberOrderedForm.from_expr(transposed).adjoint()
-        if any(coeff.is_zero is False for coeff in difference.terms.values()):
+        # Coefficients with other (generic, noncommutative) operators are undecidable.
+        coefficients = [coeff.expand() for coeff in difference.terms.values()]
+        if any(c.is_commutative and c.is_zero is False for c in coefficients):
             return True
     return False
 
